@@ -117,8 +117,124 @@ Theorem C14_holds_norep_sound :
 Proof. exact holds_norep_sound. Qed.
 Print Assumptions C14_holds_norep_sound.
 
-Theorem C14_check_params_sound :
-  forall k, snd (check_params k) = true -> p_norep k = true ->
-  (exists n, In n (p_counts k) /\ n < p_nsamples k) -> p_raised k = true.
-Proof. exact check_params_sound. Qed.
-Print Assumptions C14_check_params_sound.
+(* ---- parameter validation: "rejects panels with fewer samples per population than simulated samples".
+   Labels are compared by EQUALITY (count_label p info = number of sample-info lines whose label is exactly p);
+   all statements are for all header label lists, all sample-info tables, all n. *)
+
+(* a line counts for population p iff its label is p *)
+Theorem C14_params_count_is_exact_label :
+  forall p r info, count_label p (r :: info) = (if snd r =? p then 1 else 0) + count_label p info.
+Proof. exact count_label_cons. Qed.
+Print Assumptions C14_params_count_is_exact_label.
+
+(* with --no_replacement: some source population short of lines => rejected (no precondition) *)
+Theorem C14_params_insufficient_rejected :
+  forall n pops info,
+  (exists p, In p (tl pops) /\ count_label p info < n) ->
+  fst (validate_info true n pops info) <> V_accept.
+Proof. exact insufficient_rejected. Qed.
+Print Assumptions C14_params_insufficient_rejected.
+
+(* ... and on a sample-info file whose samples are all in the panel: rejected IFF some source population is short *)
+Theorem C14_params_reject_iff :
+  forall n pops info,
+  (forall r, In r info -> offending pops r = false) -> 1 <= n ->
+  (fst (validate_info true n pops info) <> V_accept <->
+   exists p, In p (tl pops) /\ count_label p info < n).
+Proof. exact reject_iff. Qed.
+Print Assumptions C14_params_reject_iff.
+
+(* acceptance characterised, both modes *)
+Theorem C14_params_accept_iff :
+  forall norep n pops info,
+  fst (validate_info norep n pops info) = V_accept <->
+  (forall r, In r info -> offending pops r = false) /\
+  (forall p, In p (tl pops) -> count_label p info <> 0 /\ (norep = true -> n <= count_label p info)).
+Proof. exact validate_accept_iff. Qed.
+Print Assumptions C14_params_accept_iff.
+
+Theorem C14_params_replacement_accept_iff :
+  forall n pops info,
+  fst (validate_info false n pops info) = V_accept <->
+  (forall r, In r info -> offending pops r = false) /\
+  (forall p, In p (tl pops) -> exists r, In r info /\ snd r = p).
+Proof. exact replacement_accept_iff. Qed.
+Print Assumptions C14_params_replacement_accept_iff.
+
+(* the not-enough-samples error names a population that is short; the absent-population error one without a line *)
+Theorem C14_params_insufficient_verdict :
+  forall norep n pops info p,
+  validate_info norep n pops info = (V_insufficient, p) ->
+  norep = true /\ In p (tl pops) /\ 0 < count_label p info < n.
+Proof. exact insufficient_verdict. Qed.
+Print Assumptions C14_params_insufficient_verdict.
+
+Theorem C14_params_pop_absent_verdict :
+  forall norep n pops info p,
+  validate_info norep n pops info = (V_pop_absent, p) ->
+  In p (tl pops) /\ forall r, In r info -> snd r <> p.
+Proof. exact pop_absent_verdict. Qed.
+Print Assumptions C14_params_pop_absent_verdict.
+
+(* the order of the sample-info lines is irrelevant *)
+Theorem C14_params_line_order_irrelevant :
+  forall norep n pops a b,
+  Permutation.Permutation a b -> fst (validate_info norep n pops a) = fst (validate_info norep n pops b).
+Proof. exact validate_perm. Qed.
+Print Assumptions C14_params_line_order_irrelevant.
+
+(* only the equality pattern of the labels matters (any injective renaming = any other set of label strings) *)
+Theorem C14_params_only_label_equality_matters :
+  forall f : Z -> Z, (forall x y, f x = f y -> x = y) ->
+  forall norep n pops info,
+  fst (validate_info norep n (map f pops) (rename_info f info)) = fst (validate_info norep n pops info).
+Proof. exact validate_rename. Qed.
+Print Assumptions C14_params_only_label_equality_matters.
+
+(* counting with any matching coarser than equality (substring, prefix, case folding ...) breaks the clause *)
+Theorem C14_params_coarser_match_refuted :
+  forall m : Z -> Z -> bool, (forall p, m p p = true) -> m 1 2 = true ->
+  let info := [(0, 1); (1, 2); (2, 2)] in
+  fst (validate_info_by m true 2 [0; 1; 2] info) = V_accept /\
+  count_label 1 info < 2 /\
+  fst (validate_info true 2 [0; 1; 2] info) = V_insufficient.
+Proof. exact coarser_match_refuted. Qed.
+Print Assumptions C14_params_coarser_match_refuted.
+
+(* hypotheses satisfiable: EUR(1) with 2 lines, EUR_S(2) with 3, an unused label (3) *)
+Theorem C14_params_nested_labels_example :
+  validate_info true 3 [0; 1; 2] [(0, 2); (1, 1); (2, 2); (3, 3); (4, 1); (5, 2)] = (V_insufficient, 1) /\
+  validate_info true 2 [0; 1; 2] [(0, 2); (1, 1); (2, 2); (3, 3); (4, 1); (5, 2)] = (V_accept, 0) /\
+  validate_info false 3 [0; 1; 2] [(0, 2); (1, 1); (2, 2); (3, 3); (4, 1); (5, 2)] = (V_accept, 0).
+Proof. exact nested_labels_example. Qed.
+Print Assumptions C14_params_nested_labels_example.
+
+(* soundness of the checker evaluated on the implementation's verdict (relation params) *)
+Theorem C14_holds_params_sound :
+  forall k, holds_params k = true ->
+  (p_norep k = true ->
+   (exists p, In p (tl (p_pops k)) /\ count_label p (p_info k) < p_nsamples k) ->
+   fst (p_verdict k) <> V_accept) /\
+  (fst (p_verdict k) = V_insufficient ->
+   p_norep k = true /\ exists p, In p (tl (p_pops k)) /\ count_label p (p_info k) < p_nsamples k).
+Proof. exact holds_params_sound. Qed.
+Print Assumptions C14_holds_params_sound.
+
+(* agreement of model and implementation carries the equivalence over to the observed verdict *)
+Theorem C14_params_agree_transfers :
+  forall k, fst (check_params k) = true -> p_norep k = true ->
+  (forall r, In r (p_info k) -> offending (p_pops k) r = false) -> 1 <= p_nsamples k ->
+  (fst (p_verdict k) <> V_accept <->
+   exists p, In p (tl (p_pops k)) /\ count_label p (p_info k) < p_nsamples k).
+Proof. exact params_agree_transfers. Qed.
+Print Assumptions C14_params_agree_transfers.
+
+(* the command (relation cli): an insufficient panel stops it before simulate_gt runs and before any file
+   is written; whatever output_vcf wrote re-uses no reference haplotype *)
+Theorem C14_holds_cli_sound :
+  forall k, holds_cli k = true ->
+  holds_params (c_p k) = true /\
+  (insufficient (c_p k) = true -> c_sim k = false /\ c_wrote k = false) /\
+  (forall o, c_o k = Some o -> holds_norep o = true).
+Proof. exact holds_cli_sound. Qed.
+Print Assumptions C14_holds_cli_sound.
